@@ -436,7 +436,7 @@ impl Sim {
                     .quic
                     .as_ref()
                     .and_then(|q| q.max_idle_timeout_ms)
-                    .unwrap_or(10_000),
+                    .unwrap_or(30_000), // what applies when nothing is configured (quinn's default)
                 "keepalive_ms": cfg
                     .config
                     .quic
